@@ -132,7 +132,7 @@ impl<S: Sut> Model for Space<S> {
 
 /// `Sut::replay` with a panic turned into a disagreement.
 pub fn guarded_replay<S: Sut>(sut: &S, hist: &[S::Op]) -> Result<String, Disagreement> {
-    match crate::catch(|| sut.replay(hist)) {
+    match crate::watchdog::case(|| format!("history {:?}", hist), || crate::catch(|| sut.replay(hist))) {
         Ok(r) => r,
         Err(p) => Err(Disagreement { signature: "panic-during-replay".into(), what: format!("replay panicked: {}", p), transcript: hist.iter().map(|o| format!("{:?}", o)).collect() }),
     }
